@@ -25,6 +25,8 @@ type fnRec struct {
 	D0    string
 	Ok    bool   // Text parsed back to a program holding exactly one function literal (bound the same way)
 	DI    string // its normalised dump
+	Text2 string // the text printed again for the function read back from Text (C03: Text is a fixpoint)
+	Ok2   bool
 	Panic string
 }
 
@@ -98,6 +100,43 @@ func fnRecords(src string) (recs []fnRec) {
 		}
 		r.Ok = true
 		r.DI = canonDump([]any{stripFlags(any(normFn(fn2)))})
+		// print the function that was read back once more, the same way
+		defer func() {
+			if e := recover(); e != nil {
+				r.Ok2 = false
+			}
+		}()
+		s2, buf2 := newState(RunOpt{})
+		o2 := evalProgram(s2, buf2, p2, RunOpt{})
+		if o2.Panicked || o2.Err {
+			return
+		}
+		cancel2 := s2.SetContext(context.Background(), 5*time.Second)
+		defer cancel2()
+		if r.Via == "inspect" {
+			look, _ := fn2["name"].(string)
+			if look == "" {
+				// the text of an anonymous function is an expression: its value is the function
+				p3, _, _ := fmtParse("(" + r.Text + ")")
+				if v, okv := object.Value(s2.Eval(p3)).(object.Function); okv {
+					r.Text2, r.Ok2 = v.Inspect(), true
+				}
+				return
+			}
+			if v, okv := object.Value(s2.Eval(parseIdent(look))).(object.Function); okv {
+				r.Text2, r.Ok2 = v.Inspect(), true
+			}
+			return
+		}
+		var out2 bytes.Buffer
+		if _, err := s2.SaveGlobals(&out2); err != nil {
+			return
+		}
+		for _, ln := range strings.Split(out2.String(), "\n") {
+			if (wantBound != "" && strings.HasPrefix(ln, varName+"=")) || (wantBound == "" && strings.HasPrefix(ln, "func "+name+"(")) {
+				r.Text2, r.Ok2 = ln, true
+			}
+		}
 	}
 	func() {
 		r := mk("inspect")
@@ -149,10 +188,12 @@ func parseIdent(name string) any {
 }
 
 func (r *fnRec) lawJSON(id int) J {
-	return J{"ty": "fn", "id": id, "d0": r.D0, "ok": r.Ok && r.Panic == "", "dI": r.DI}
+	return J{"ty": "fn", "id": id, "d0": r.D0, "ok": r.Ok && r.Panic == "", "dI": r.DI,
+		"t": latin1(r.Text), "ok2": r.Ok2, "t2": latin1(r.Text2)}
 }
 
-func fnLawGo(r *fnRec) bool { return r.Panic == "" && r.Ok && r.DI == r.D0 }
+func fnLawGo(r *fnRec) bool  { return r.Panic == "" && r.Ok && r.DI == r.D0 }
+func fnIdemGo(r *fnRec) bool { return r.Panic == "" && r.Ok && r.Ok2 && r.Text2 == r.Text }
 
 const hzInspectBody = "fmt-inspect-lambda-body-without-braces"
 
@@ -186,7 +227,7 @@ func inspectBodyHazard(fn J) bool {
 }
 
 // fnAttribute: signatures of a failing function-value record (same discipline as fmtAttribute).
-func fnAttribute(r *fnRec) (sigs []string, note string) {
+func fnAttribute(r *fnRec, law func(*fnRec) bool) (sigs []string, note string) {
 	unexplained := "fmt-function-value-" + r.Via + "-unexplained"
 	if r.Panic != "" {
 		return []string{"fmt-function-value-panic"}, r.Panic
@@ -220,7 +261,7 @@ func fnAttribute(r *fnRec) (sigs []string, note string) {
 		rs := fnRecords(src)
 		for _, x := range rs {
 			if x.Via == r.Via {
-				return !fnLawGo(&x), true
+				return !law(&x), true
 			}
 		}
 		return false, false
